@@ -582,3 +582,16 @@ KEEP += [
      "        let linear_force = desired_force_isometry.translation.vector;\n        let angular_torgue = desired_force_isometry.rotation.scaled_axis();\n\n        // Combine into a single 6D vector\n        let mut desired_force_torgue_vector = Vector6::zeros();\n        desired_force_torgue_vector.fixed_rows_mut::<3>(0).copy_from(&linear_force);\n        desired_force_torgue_vector.fixed_rows_mut::<3>(3).copy_from(&angular_torgue);\n",
      ['C15'], 'wrench vector assembled from two 3-vectors'),
 ]
+
+# ---- fourteenth batch: shape wrapper, parallelogram, tool/base
+KEEP += [
+    ('K144', W, "        let mut filtered_solutions = Vec::with_capacity(solutions.len());\n        for solution in solutions {\n            if !self.body.collides(&solution, self.kinematics.as_ref()) {\n                filtered_solutions.push(solution);\n            }\n        }\n        filtered_solutions\n",
+     "        let mut solutions = solutions;\n        solutions.retain(|solution| !self.body.collides(solution, self.kinematics.as_ref()));\n        solutions\n",
+     ['C11', 'C08'], 'colliding solutions dropped in place by retain'),
+    ('K145', W, "                safety: SafetyDistances::standard(\n                    if first_collision_only {\n                        CheckMode::FirstCollisionOnly\n                    } else {\n                        CheckMode::AllCollsions\n                    }),\n",
+     "                safety: SafetyDistances::standard(match first_collision_only {\n                    true => CheckMode::FirstCollisionOnly,\n                    false => CheckMode::AllCollsions,\n                }),\n",
+     ['C11', 'C10'], 'check mode chosen by a match on the flag'),
+    ('K146', W, "    pub fn collides(&self, joints: &Joints) -> bool {\n        self.body.collides(joints, self.kinematics.as_ref())\n    }\n",
+     "    pub fn collides(&self, joints: &Joints) -> bool {\n        let robot: &dyn Kinematics = &*self.kinematics;\n        self.body.collides(joints, robot)\n    }\n",
+     ['C11', 'C12', 'C13'], 'the stack held in a typed local before the collision call'),
+]
